@@ -237,11 +237,12 @@ namespace nmtools::view
             if constexpr (meta::is_resizable_v<slices_type>) {
                 slices.resize(dim);
             }
+            // a negative axis counts from the end
+            auto n_axis = ((nm_index_t)axis < 0) ? ((nm_index_t)axis + (nm_index_t)dim) : (nm_index_t)axis;
             for (size_t i=0; i<dim; i++) {
                 // index at axis i
                 auto s = at(indices_,i);
-                using common_t = meta::promote_index_t<decltype(axis),size_t>;
-                auto start = (common_t)i==(common_t)axis ? 0 : s;
+                auto start = ((nm_index_t)i == n_axis) ? 0 : s;
                 auto stop  = s + 1;
                 at(slices,i) = {start,stop};
             }
